@@ -202,17 +202,64 @@ package gradtrack
 
 //@ define delivered(e) := imp(e.target.gctx.tracked, e.target.gctx.bpdirty && e.target.gctx.gradient != nil)
 
-// The order in which contexts are handled: the root first, and every other member after a member that holds an edge to
-// it. This is a property of the whole graph (depth-first search with a visited set); it is assumed here and checked by
-// the bounded stand-in TestDAG together with the consequence that matters (each tensor receives the total derivative).
+// The order in which contexts are handled (reverse depth-first post-order with a visited map). The back-edge graph is
+// acyclic; this is stated with a ghost ranking `older` (a strict order on contexts: every edge points from a younger
+// context to an older one). Acyclicity is a precondition of consumersFirst and an unchecked assumption at its callers
+// (contexts are only ever created pointing to existing tensors, and back edges are never rewritten).
+//@ predicate older(a R_GradContext, b R_GradContext) := uninterpreted
+//@ axiom olderTrans: forallG(a, forallG(b, forallG(c, imp(older(a, b) && older(b, c), older(a, c)))))
+//@ axiom olderIrr: forallG(a, !older(a, a))
+//@ define tgtc(g, i) := g.backEdges[i].target.gctx
+//@ define dag() := forallG(g, forall(i, 0, len(g.backEdges), older(tgtc(g, i), g)))
+//@ define memberOK(g) := g != nil && g.tracked && ownerOf(g) != nil && ownerOf(g).gctx == g
+//@ define listed(order, lo, hi, g) := exists(j, lo, hi, order[j] == g)
+// every listed context has been marked; no context is listed twice
+//@ define ordMarked(order, visited) := forall(k, 0, len(order), memberOK(order[k]) && visited[order[k]])
+//@ define ordDistinct(order) := forall(a, 0, len(order), forall(b, 0, a, order[a] != order[b]))
+// post-order: every tracked target of a listed context is listed before it
+//@ define ordClosed(order) := forall(k, 0, len(order), forall(i, 0, len(order[k].backEdges), imp(tgtc(order[k], i).tracked, listed(order, 0, k, tgtc(order[k], i)))))
+// the recursion stack (marked, not yet listed) consists of contexts younger than g
+//@ define stackAbove(order, visited, g) := forallG(z, imp(visited[z] && !listed(order, 0, len(order), z), older(g, z)))
+// every context listed at lo..hi-1 other than g has a consumer listed after it
+//@ define consumed(order, lo, hi, g) := forall(k, lo, hi, order[k] == g || exists(j, k + 1, hi, exists(i, 0, len(order[j].backEdges), tgtc(order[j], i) == order[k])))
+
+//@ func consumersFirst#0
+//@   uses olderTrans, olderIrr
+//@   requires memberOK(gctx) && graphInv() && dag()
+//@   requires visited != nil && ordMarked(order, visited) && ordDistinct(order) && ordClosed(order) && stackAbove(order, visited, gctx)
+//@   modifies visited, order
+//@   ensures visited[gctx] && forallG(z, imp(old(visited)[z], visited[z]))
+//@   ensures len(order) >= len(old(order)) && forall(k, 0, len(old(order)), order[k] == old(order)[k])
+//@   ensures ordMarked(order, visited) && ordDistinct(order) && ordClosed(order)
+//@   ensures forall(k, len(old(order)), len(order), !old(visited)[order[k]])
+//@   ensures forallG(z, imp(visited[z] && !old(visited)[z], listed(order, len(old(order)), len(order), z)))
+//@   ensures listed(order, 0, len(order), gctx)
+//@   ensures imp(!old(visited)[gctx], len(order) > len(old(order)) && order[len(order)-1] == gctx)
+//@   ensures consumed(order, len(old(order)), len(order), gctx)
+//@   loop 0 invariant visited != nil && visited[gctx] && forallG(z, imp(old(visited)[z], visited[z]))
+//@   loop 0 invariant len(order) >= len(old(order)) && forall(k, 0, len(old(order)), order[k] == old(order)[k])
+//@   loop 0 invariant ordMarked(order, visited) && ordDistinct(order) && ordClosed(order)
+//@   loop 0 invariant forall(k, len(old(order)), len(order), !old(visited)[order[k]] && order[k] != gctx)
+//@   loop 0 invariant forallG(z, imp(visited[z] && !old(visited)[z] && z != gctx, listed(order, len(old(order)), len(order), z)))
+//@   loop 0 invariant forall(i, 0, _i0, imp(tgtc(gctx, i).tracked, listed(order, 0, len(order), tgtc(gctx, i))))
+//@   loop 0 invariant forall(k, len(old(order)), len(order), exists(i, 0, _i0, tgtc(gctx, i) == order[k]) || exists(j, k + 1, len(order), exists(i, 0, len(order[j].backEdges), tgtc(order[j], i) == order[k])))
+
 //@ func consumersFirst
-//@   requires root != nil && graphInv()
-//@   assumed whole-graph ordering (reverse depth-first post-order with a visited map: pointer-keyed map and recursive closure are outside the verified subset); bounded stand-in: rac TestDAG
-//@   ensures len(order) >= 1 && order[0] == root && forall(k, 0, len(order), order[k] != nil && order[k].tracked && ownerOf(order[k]) != nil && ownerOf(order[k]).gctx == order[k])
-//@   ensures forall(k, 1, len(order), exists(j, 0, k, exists(i, 0, len(order[j].backEdges), order[j].backEdges[i].target.gctx == order[k])))
+//@   requires memberOK(root) && graphInv() && dag()
+//@   uses olderTrans, olderIrr
+//@   ensures[C01] len(order) >= 1 && order[0] == root && forall(k, 0, len(order), order[k] != nil && order[k].tracked && ownerOf(order[k]) != nil && ownerOf(order[k]).gctx == order[k])
+//@   ensures[C01] forall(k, 1, len(order), exists(j, 0, k, exists(i, 0, len(order[j].backEdges), order[j].backEdges[i].target.gctx == order[k])))
+// each context is listed once, before every tracked context it holds an edge to (so: after all of its consumers)
+//@   ensures[C01] ordDistinct(order)
+//@   ensures[C01] forall(k, 0, len(order), forall(i, 0, len(order[k].backEdges), imp(tgtc(order[k], i).tracked, listed(order, k + 1, len(order), tgtc(order[k], i)))))
+// the reversal loop: positions outside i..j hold the mirrored elements of the post-order list, the middle is untouched
+//@   loop 0 invariant len(order) == len(pre(order)) && 0 <= i && i + j == len(order) - 1 && i <= j + 1
+//@   loop 0 invariant forall(k, 0, len(order), order[k] == ite(k < i || k > j, pre(order)[len(order) - 1 - k], pre(order)[k]))
+//@   loop 0 invariant forallI(k, trig(imp(0 <= k && k < len(order), pre(order)[k] == ite(k < i || k > j, order[len(order) - 1 - k], order[k])), pre(order)[k]))
+//@   loop 0 decreases j - i + 1
 
 //@ func backward
-//@   requires edgeReady(edge) && graphInv()
+//@   requires edgeReady(edge) && graphInv() && dag()
 //@   modifies GradContext.bpdirty, GradContext.gradient
 //@   ensures[C08] imp(!old(edge.target.gctx.tracked), err == nil && forallG(g, g.bpdirty == old(g.bpdirty) && g.gradient == old(g.gradient)))
 //@   ensures[C08] forallG(g, imp(old(g.bpdirty), g.bpdirty) && imp(old(g.gradient) != nil, g.gradient != nil))
@@ -230,7 +277,7 @@ package gradtrack
 //@   loop 1 invariant forall(i, 0, _i1, delivered(gctx.backEdges[i]))
 
 //@ func BackPropagate
-//@   requires tinv(t) && graphInv()
+//@   requires tinv(t) && graphInv() && dag()
 //@   modifies GradContext.bpdirty, GradContext.gradient
 //@   ensures[C08] imp(!old(t.gctx.tracked), err == nil && forallG(g, g.bpdirty == old(g.bpdirty) && g.gradient == old(g.gradient)))
 //@   ensures[C08] forallG(g, imp(old(g.bpdirty), g.bpdirty) && imp(old(g.gradient) != nil, g.gradient != nil))
